@@ -33,6 +33,7 @@ fn scenario(seed: u64, index: u64) -> DebugScenario {
         allow_breaks: rng.chance(1, 4),
         max_blocks: 1 + rng.usize_below(4),
         high_origin: rng.chance(1, 10),
+            tail_beyond_user: false,
     };
     let program = gen::generate(&mut rng, &opts);
     let ctx = Ctx::new(&program, stack, minimal);
